@@ -138,8 +138,8 @@ fn run_vec_x<K: Kind<X>, X: Item>(plan: &Plan, st: &mut Stats, fl: &mut Flags, c
     ex.finish();
 }
 
-fn run_mat<F: MatFam>(plan: &Plan, home_cm: bool, st: &mut Stats, fl: &mut Flags, counts: &mut (u32, u32), viol_op: &mut Option<OpK>) {
-    let mut mx = MatExec::<F>::new(home_cm);
+fn run_mat<F: MatFam<L>, L: Leaf>(plan: &Plan, home_cm: bool, st: &mut Stats, fl: &mut Flags, counts: &mut (u32, u32), viol_op: &mut Option<OpK>) {
+    let mut mx = MatExec::<F, L>::new(home_cm);
     mx.start_fresh(st);
     let mut idx = 0usize;
     let mut handed: Option<(<F::LK as Kind<F::Line>>::V, Vec<Grp>)> = None;
@@ -257,12 +257,72 @@ pub fn execute(plan: &Plan, st: &mut Stats, trace: bool) -> Outcome {
                     viol_op = vo;
                 }
             }
-            13 => run_mat::<Fam2>(plan, false, st, &mut fl, &mut counts, &mut viol_op),
-            14 => run_mat::<Fam3>(plan, false, st, &mut fl, &mut counts, &mut viol_op),
-            15 => run_mat::<Fam4>(plan, false, st, &mut fl, &mut counts, &mut viol_op),
-            16 => run_mat::<Fam2>(plan, true, st, &mut fl, &mut counts, &mut viol_op),
-            17 => run_mat::<Fam3>(plan, true, st, &mut fl, &mut counts, &mut viol_op),
-            18 => run_mat::<Fam4>(plan, true, st, &mut fl, &mut counts, &mut viol_op),
+            13 => match plan.elem {
+                1 => {
+                    st.runs_wide += 1;
+                    run_mat::<Fam2, Wide>(plan, false, st, &mut fl, &mut counts, &mut viol_op)
+                }
+                2 => {
+                    st.runs_plain += 1;
+                    run_mat::<Fam2, tok::Plain>(plan, false, st, &mut fl, &mut counts, &mut viol_op)
+                }
+                _ => run_mat::<Fam2, Tok>(plan, false, st, &mut fl, &mut counts, &mut viol_op),
+            },
+            14 => match plan.elem {
+                1 => {
+                    st.runs_wide += 1;
+                    run_mat::<Fam3, Wide>(plan, false, st, &mut fl, &mut counts, &mut viol_op)
+                }
+                2 => {
+                    st.runs_plain += 1;
+                    run_mat::<Fam3, tok::Plain>(plan, false, st, &mut fl, &mut counts, &mut viol_op)
+                }
+                _ => run_mat::<Fam3, Tok>(plan, false, st, &mut fl, &mut counts, &mut viol_op),
+            },
+            15 => match plan.elem {
+                1 => {
+                    st.runs_wide += 1;
+                    run_mat::<Fam4, Wide>(plan, false, st, &mut fl, &mut counts, &mut viol_op)
+                }
+                2 => {
+                    st.runs_plain += 1;
+                    run_mat::<Fam4, tok::Plain>(plan, false, st, &mut fl, &mut counts, &mut viol_op)
+                }
+                _ => run_mat::<Fam4, Tok>(plan, false, st, &mut fl, &mut counts, &mut viol_op),
+            },
+            16 => match plan.elem {
+                1 => {
+                    st.runs_wide += 1;
+                    run_mat::<Fam2, Wide>(plan, true, st, &mut fl, &mut counts, &mut viol_op)
+                }
+                2 => {
+                    st.runs_plain += 1;
+                    run_mat::<Fam2, tok::Plain>(plan, true, st, &mut fl, &mut counts, &mut viol_op)
+                }
+                _ => run_mat::<Fam2, Tok>(plan, true, st, &mut fl, &mut counts, &mut viol_op),
+            },
+            17 => match plan.elem {
+                1 => {
+                    st.runs_wide += 1;
+                    run_mat::<Fam3, Wide>(plan, true, st, &mut fl, &mut counts, &mut viol_op)
+                }
+                2 => {
+                    st.runs_plain += 1;
+                    run_mat::<Fam3, tok::Plain>(plan, true, st, &mut fl, &mut counts, &mut viol_op)
+                }
+                _ => run_mat::<Fam3, Tok>(plan, true, st, &mut fl, &mut counts, &mut viol_op),
+            },
+            18 => match plan.elem {
+                1 => {
+                    st.runs_wide += 1;
+                    run_mat::<Fam4, Wide>(plan, true, st, &mut fl, &mut counts, &mut viol_op)
+                }
+                2 => {
+                    st.runs_plain += 1;
+                    run_mat::<Fam4, tok::Plain>(plan, true, st, &mut fl, &mut counts, &mut viol_op)
+                }
+                _ => run_mat::<Fam4, Tok>(plan, true, st, &mut fl, &mut counts, &mut viol_op),
+            },
             k => panic!("harness: unknown kind {}", k),
         }
         if !tok::has_violation() {
